@@ -587,7 +587,121 @@ def q_arg_flow(ctx, p):
                 discharged=discharged, functions=[fn.name], details=details)
 
 
+def closure_has_stmt(funcs, callee, stmt_re):
+    for loc in re.findall(r"\{closure@([^}]*)\}", callee):
+        cf = closure_fn(funcs, loc)
+        if cf is None:
+            continue
+        for b in cf.blocks.values():
+            for d, rhs in b.stmts:
+                if d and re.search(stmt_re, "%s = %s" % (d, rhs)):
+                    return True
+    return False
+
+
+def q_guarded(ctx, p):
+    """A call (identified by callee regex and/or by a statement inside the closure it is given) is
+    reachable only on executions that have passed a guard call (callee regex) whose result was
+    `value`.  The encoding describes ONE execution, so 'passed guard s with result v' is
+    reach[s] and site[s] == v."""
+    funcs = ctx.funcs
+    fns = find_fn(funcs, p["fn"])
+    if len(fns) != 1:
+        return dict(status="inconclusive", reason="function pattern matched %d" % len(fns))
+    fn = fns[0]
+    enc = sym.Enc(fn, funcs, sym.Glob())
+    s = z3.Solver()
+    s.add(enc.extra)
+    targets = []
+    for b, t in enc.call_sites(p.get("target", r".")):
+        if p.get("target_closure_stmt") and not closure_has_stmt(funcs, t["callee"], p["target_closure_stmt"]):
+            continue
+        targets.append((b, t))
+    if not targets:
+        return dict(status="inconclusive", reason="vacuity guard: no target call site")
+    guards = [(b, t) for b, t in enc.call_sites(p["guard"]) if b in enc.site and z3.is_bool(enc.site[b])]
+    val = p.get("value", True)
+    passed = z3.Or([z3.And(enc.reach[b], enc.site[b] == val) for b, _ in guards]) if guards else z3.BoolVal(False)
+    witnesses = []
+    obligations = discharged = 0
+    for b, t in targets:
+        obligations += 1
+        if ctx.check(s, enc.reach[b]) != z3.sat:
+            return dict(status="inconclusive", reason="vacuity guard: target bb%d unreachable" % b)
+        r = ctx.check(s, enc.reach[b], z3.Not(passed))
+        if r == z3.sat:
+            witnesses.append(dict(key="%s: %s without %s" % (short_fn(fn.name), p.get("target_name", norm_callee(t["callee"])), p.get("guard_name", p["guard"])),
+                                  what="%s (bb%d) is reachable on an execution that has not passed %s with result %s (%d guard sites found)" % (
+                                      p.get("target_name", norm_callee(t["callee"])), b, p.get("guard_name", p["guard"]), val, len(guards))))
+        elif r == z3.unsat:
+            discharged += 1
+        else:
+            return dict(status="inconclusive", reason="solver unknown")
+    return dict(status="failed" if witnesses else "held", witnesses=witnesses, obligations=obligations, discharged=discharged,
+                functions=[fn.name], details=["%d target sites, %d guard sites" % (len(targets), len(guards))])
+
+
+def q_bounds(ctx, p):
+    """Bounds-check feasibility in the functions matching p['fns']: rustc's MIR carries every
+    slice/Vec index bounds check as assert(cond, "index out of bounds...").  Where cond is tracked
+    (index and length are terms of the encoding) the solver decides whether an execution with
+    cond false exists; untracked conditions are counted as undecided, never as witnesses."""
+    funcs = ctx.funcs
+    pats = [re.compile(x) for x in p["fns"]]
+    skip = [re.compile(x) for x in p.get("skip", [])]
+    sel = [f for n, f in funcs.items() if any(x.search(n) for x in pats) and not any(x.search(n) for x in skip) and not n.startswith("const ")]
+    if not sel:
+        return dict(status="inconclusive", reason="no function matched")
+    witnesses, details, functions = [], [], []
+    obligations = discharged = undecided = 0
+    msg_re = re.compile(p.get("msg", r"index out of bounds"))
+    for fn in sel:
+        try:
+            enc = sym.Enc(fn, funcs, sym.Glob())
+        except Exception as ex:
+            details.append("%s: not encoded (%r)" % (short_fn(fn.name), ex))
+            continue
+        s = z3.Solver()
+        s.add(enc.extra)
+        n_here = 0
+        for b in enc.order:
+            t = enc.blocks[b].term
+            if not t or t["kind"] != "assert" or not msg_re.search(t.get("msg", "")):
+                continue
+            n_here += 1
+            st = enc.out_state[b]
+            ctxt = t["cond"].strip()
+            neg = ctxt.startswith("!")
+            c = enc.operand(st, ctxt[1:] if neg else ctxt)
+            if c is None or not z3.is_bool(c):
+                undecided += 1
+                continue
+            if neg:
+                c = z3.Not(c)
+            obligations += 1
+            r = ctx.check(s, enc.reach[b], z3.Not(c))
+            if r == z3.unsat:
+                discharged += 1
+            elif r == z3.sat:
+                witnesses.append(dict(key="%s: index out of bounds" % short_fn(fn.name),
+                                      what="%s bb%d: an execution exists on which the bounds check %s fails (args %s)" % (short_fn(fn.name), b, t.get("msg", "")[:40], t.get("args"))))
+            else:
+                undecided += 1
+        if n_here:
+            functions.append(fn.name)
+    details.append("%d functions with bounds checks; %d checks decided by the solver, %d undecided (index or length not tracked)" % (len(functions), obligations, undecided))
+    if obligations == 0:
+        return dict(status="inconclusive", reason="vacuity guard: no bounds check could be decided", details=details)
+    uniq = {}
+    for w in witnesses:
+        uniq.setdefault(w["key"], w)
+    return dict(status="failed" if uniq else "held", witnesses=list(uniq.values()), obligations=obligations,
+                discharged=discharged, functions=functions[:40], details=details)
+
+
 KINDS = {
+    "bounds": q_bounds,
+    "guarded": q_guarded,
     "no_error_after": q_no_error_after,
     "arg_flow": q_arg_flow,
     "reach_allow": q_reach_allow,
